@@ -26,7 +26,7 @@ SV_NORM = 10.0       # |norm - 1|            <= SV_NORM * steps * tol          (
 SV_ENERGY = 10.0     # |E - E0| / scale      <= SV_ENERGY * steps * tol        (observed <= 4e-5; <H^2>: 2e-2)
 MPS_NORM = 1.0       # |norm - 1|            <= MPS_NORM * steps * precision   (observed <= 1e-9)
 MPS_ENERGY = 1.0     # |E - E0| / scale      <= MPS_ENERGY * steps * precision (observed <= 2e-6; <H^2>: 1e-3)
-FLOOR = 1e-9
+FLOOR = 1e-6         # absolute floor: torch.linalg.matrix_exp / rounding level effects (observed <= 6e-9) x >100
 
 PINS = {
     "emu_sv/time_evolution.py": ["return -1j * dt * (ham * x)", "is_hermitian=True"],
@@ -73,7 +73,17 @@ def make_problem(rng, n, chain):
         prob["delta"] = np.zeros((steps, n))
         prob["phi"] = np.zeros((steps, n))
     else:
-        prob = D.random_problem(rng, n, steps, dt=dt)
+        prob = D.random_problem(rng, min(n, 6), steps, dt=dt)
+        if n > 6:
+            # D.random_problem cannot keep more than ~6 atoms apart in its 4x4 box (coincident atoms give
+            # |H| dt ~ 1e5, for which no Krylov space of the allotted size converges): jittered grid instead
+            side = int(np.ceil(np.sqrt(n)))
+            a = rng.uniform(1.0, 1.3)
+            pos = np.array([[a * (i % side) + rng.uniform(-0.1, 0.1), a * (i // side) + rng.uniform(-0.1, 0.1)]
+                            for i in range(n)])
+            d = np.linalg.norm(pos[:, None] - pos[None], axis=-1) + np.eye(n)
+            prob.update(n=n, U=(5.0 / d ** 6) * (1 - np.eye(n)), omega=np.zeros((steps, n)),
+                        delta=np.zeros((steps, n)), phi=np.zeros((steps, n)))
     local = rng.random() < 0.6
     for w in range(windows):
         om = np.array([rng.uniform(0.5, 6.0) for _ in range(n)]) if local else np.full(n, rng.uniform(0.5, 6.0))
